@@ -494,6 +494,10 @@ func init() {
 		names = append(names, cn...)
 		tn, td := c03TestInputs(c.Repo)
 		xn, xd := c03ContextDocs(c)
+		for _, s := range c03Regressions3 {
+			xd = append(xd, []byte(s))
+			xn = append(xn, "c03-regress3:"+h.Q([]byte(s)))
+		}
 		if err := c03StageLoop(c, append(append(append([][]byte{}, docs...), td...), xd...), append(append(append([]string{}, names...), tn...), xn...)); err != nil {
 			return err
 		}
